@@ -101,18 +101,23 @@ inductive PathEl where
   | frag (ty : Str)
 deriving Repr, Inhabited
 
-/-- the sub-selection of a normalization AST below one path element -/
+/-- the sub-selection of a normalization AST below one path element.  Several nodes can carry the
+same field and arguments (the compiler's map keys also compare source locations inside object
+values, so `{ kind: $a }` and `{ kind: $b }` that become equal after substitution stay two entries);
+they are normalized into the same record, so their selections add up. -/
 def descend1 (nodes : List NNode) : PathEl → Option (List NNode)
   | .field n a =>
-    (nodes.findSome? fun node =>
+    let hits := nodes.filterMap fun node =>
       match node with
       | .linked _ n' a' _ sel => if n == n' && argsEq a a' then some sel else none
-      | _ => none)
+      | _ => none
+    if hits.isEmpty then none else some hits.flatten
   | .frag ty =>
-    (nodes.findSome? fun node =>
+    let hits := nodes.filterMap fun node =>
       match node with
       | .frag ty' sel => if ty == ty' then some sel else none
-      | _ => none)
+      | _ => none
+    if hits.isEmpty then none else some hits.flatten
 
 def descend (nodes : List NNode) : List PathEl → Option (List NNode)
   | [] => some nodes
@@ -120,6 +125,19 @@ def descend (nodes : List NNode) : List PathEl → Option (List NNode)
     match descend1 nodes el with
     | some sel => descend sel rest
     | none => none
+
+/-- every way to follow a path when several nodes carry the same field and arguments: one
+sub-selection per choice of node at each step (the compiler's refetch query is built from ONE entry
+of its map, `current_target_merged_selections`) -/
+def descendAlternatives : List NNode → List PathEl → List (List NNode)
+  | nodes, [] => [nodes]
+  | nodes, el :: rest =>
+    let hits : List (List NNode) := nodes.filterMap fun node =>
+      match el, node with
+      | .field n a, .linked _ n' a' _ sel => if n == n' && argsEq a a' then some sel else none
+      | .frag ty, .frag ty' sel => if ty == ty' then some sel else none
+      | _, _ => none
+    hits.flatMap fun sel => descendAlternatives sel rest
 
 def isTypenameNode : NNode → Bool
   | .scalar _ n a => n == cs!"__typename" && a.isEmpty
@@ -290,8 +308,8 @@ def classifyUncovered (norm : List NNode) (name : Str) (rawArgs args : AArgs) : 
     | _ => none
   if candidates.any (argsEqModuloUnbound args ·) then "variable-default-not-applied"
   else if hasObjArg rawArgs || hasObjArg args then "object-argument"
-  else if candidates.isEmpty then "field-not-selected"
-  else "other-arguments"
+  else if candidates.isEmpty then "field-not-selected:" ++ stringOfStr name
+  else "other-arguments:" ++ stringOfStr name
 
 /-- what a reader AST reads that a normalization AST does not provide (statically, by store key);
 empty = covered.  Reads stop at loadable and imperative fields (only their refetch reader, i.e.
@@ -332,6 +350,43 @@ def coverProblems (g : Graph) : Nat → List NNode → List RNode → Option Env
      | .imperative .. => []
      | .loadable _ _ _ refetchAst _ _ => coverProblems g fuel norm refetchAst env) ++
     coverProblems g fuel norm rest env
+
+/-- debugging aid: `coverProblems` with the response-name trail of every problem -/
+def coverTrace (g : Graph) : Nat → List NNode → List RNode → Option Env → Str → List String
+  | 0, _, _, _, _ => ["fuel"]
+  | _, _, [], _, _ => []
+  | fuel + 1, norm, node :: rest, env, trail =>
+    (match node with
+     | .scalar name alias args =>
+       let a := substArgs env args
+       if norm.any (fun n =>
+         match n with
+         | .scalar _ n' a' => name == n' && argsEq a a'
+         | _ => false) then [] else [stringOfStr (trail ++ [47] ++ alias.getD name) ++ " : " ++ classifyUncovered norm name args a]
+     | .link _ => []
+     | .linked name alias args cond idx sel =>
+       let t := trail ++ [47] ++ alias.getD name
+       match idx with
+       | some _ => []
+       | none =>
+         match cond with
+         | some condRel =>
+           let ty := ((g.reader? condRel).bind (·.conditionType)).getD (name.drop 2)
+           (match descend1 norm (.frag ty) with
+            | some inner => coverTrace g fuel inner sel env t
+            | none => [stringOfStr t ++ " : fragment-not-selected"])
+         | none =>
+           let a := substArgs env args
+           (match descend1 norm (.field name a) with
+            | some inner => coverTrace g fuel inner sel env t
+            | none => [stringOfStr t ++ " : " ++ classifyUncovered norm name args a])
+     | .resolver alias args reader _ =>
+       (match g.reader? reader with
+        | some r => coverTrace g fuel norm r.ast (childEnv env args) (trail ++ [47] ++ alias)
+        | none => ["reader-missing"])
+     | .imperative .. => []
+     | .loadable alias _ _ refetchAst _ _ => coverTrace g fuel norm refetchAst env (trail ++ [47] ++ alias)) ++
+    coverTrace g fuel norm rest env trail
 
 def coversNodes (g : Graph) (fuel : Nat) (norm : List NNode) (ast : List RNode) (env : Option Env) : Bool :=
   (coverProblems g fuel norm ast env).isEmpty
@@ -401,7 +456,10 @@ def hitVerdict (g : Graph) (e : Entry) (h : Hit) : Option String :=
             | some c => classifyPosition c h.path
             | none => "no-context"))
         | some target =>
-          if nameOk && levels.any (fun lvl => selEq 64 lvl target) then none
+          -- the selection at the position: all entries for that store key together, or (when the
+          -- compiler's map holds several entries for it) the one entry the query was built from
+          let targets := target :: (match h.ctx with | some c => descendAlternatives c h.path | none => [])
+          if nameOk && levels.any (fun lvl => targets.any fun t => selEq 64 lvl t) then none
           else if others.any (fun o => same o target && (o.op.text.bind operationName) == some expectedName)
           then some "refetch-order-after-substitution"
           else if !nameOk then some "refetch-wrong-field"
